@@ -18,6 +18,7 @@ mod codec;
 mod aggregate;
 mod ratelimit;
 mod breaker;
+mod trend;
 
 fn main() {
     let args: Vec<String> = std::env::args().collect();
@@ -52,6 +53,7 @@ fn main() {
         "rl-replay" => ratelimit::replay(rest),
         "rl-record" => ratelimit::record(rest),
         "breaker-replay" => breaker::replay(rest),
+        "trend-replay" => trend::replay(rest),
         "for-expand" => misc::for_expand(rest),
         "event-file" => misc::event_file(rest),
         other => {
